@@ -451,6 +451,8 @@ var c13Ops = []c13Op{
 	{name: "AddTable.ApplyTableStyle(Template=TableList)", kind: "tbltemplate", id: string(document.TableStyleTemplateList)},
 	{name: "AddListItem(bullet)", kind: "list", arg: 0},
 	{name: "AddListItem(number,level 1)", kind: "list", arg: 1},
+	{name: "CreateMultiLevelList(no items)", kind: "multi-empty"},
+	{name: "CreateMultiLevelList(number, an unknown list type, bullet)", kind: "multi-bad"},
 	{name: "AddFootnote", kind: "fn"},
 	{name: "AddEndnote", kind: "en"},
 	{name: "RemoveFootnote(lowest id that exists)", kind: "fnrm"},
@@ -502,6 +504,7 @@ type c13Inst struct {
 	removedNotes  map[string]bool // "footnote|1": notes the caller removed
 	nrm, nrestart int
 	nscribble     int
+	nmulti        int
 }
 
 func (i *c13Inst) stage() string {
@@ -594,6 +597,8 @@ func (i *c13Inst) Enabled(op int) bool {
 		return i.nrestart < 1
 	case "scribble-lists":
 		return i.nscribble < 1
+	case "multi-empty", "multi-bad":
+		return i.nmulti < 1
 	case "remove":
 		// only styles no element uses are removed
 		return i.doc.GetStyleManager().StyleExists(o.id) && i.uses[o.id] == 0 && !i.bodyUses(o.id)
@@ -799,6 +804,16 @@ func (i *c13Inst) Apply(op int) (string, []rep.Violation) {
 				i.doc.AddListItem("item", &document.ListConfig{Type: document.ListTypeNumber, IndentLevel: 1, StartNumber: 1})
 			}
 			i.lastNT = true
+		case "multi-empty":
+			i.doc.CreateMultiLevelList(nil)
+			i.nmulti++
+			i.lastNT = true
+		case "multi-bad":
+			// whether the batch is accepted or refused half-way, every list paragraph in the body needs its definition
+			i.doc.CreateMultiLevelList([]document.ListItem{{Text: "m1", Type: document.ListTypeNumber, StartNumber: 1},
+				{Text: "m2", Type: document.ListType("hexadecimal")}, {Text: "m3", Type: document.ListTypeBullet, BulletSymbol: document.BulletTypeDot}})
+			i.nmulti++
+			i.lastNT = true
 		case "fn":
 			if err := i.doc.AddFootnote("text with note", "note text"); err != nil {
 				outcome = "error"
@@ -930,7 +945,7 @@ func (i *c13Inst) Key() string {
 		rm = append(rm, k)
 	}
 	sort.Strings(rm)
-	fmt.Fprintf(&b, "|api%v|uses X%d T%d|rm%v restart%d scr%d|", api, i.uses["X"], i.uses["T"], rm, i.nrestart, i.nscribble)
+	fmt.Fprintf(&b, "|api%v|uses X%d T%d|rm%v restart%d scr%d multi%d|", api, i.uses["X"], i.uses["T"], rm, i.nrestart, i.nscribble, i.nmulti)
 	// the body as the library would write it
 	var body []byte
 	if p := guard(func() { body, _ = xml.Marshal(i.doc.Body) }); p != "" {
